@@ -469,6 +469,14 @@ func (c *Client) monitor(ctx context.Context) {
 						}
 						dlog.Printf("namespaces updated")
 
+						// the session has been restored on the new secure channel.
+						// Its subscriptions still exist on the server: republish
+						// them (or recreate them if that fails) so that the publish
+						// loop is resumed afterwards.
+						subsToRepublish = c.SubscriptionIDs()
+						subsToRecreate = nil
+						availableSeqs = map[uint32][]uint32{}
+
 						action = restoreSubscriptions
 
 					case recreateSession:
